@@ -132,8 +132,11 @@ def run(F, R):
     R.rule("R34.1", "context-sensitive escaping (K9): every {{ interpolation }} of graphiql_source.jinja whose lexical context (computed by an HTML tokenizer over the "
                     "surrounding literal text) is a JS or JSON string inside <script> passes through a JS-string encoder rather than the default HTML escaper; "
                     "HTML text / RCDATA / attribute contexts use the HTML escaper (no `safe`); values of closed enums with constant Display are exempt by type")
+    R.rule("R34.2", "no interpolation is emitted raw: no `safe` filter (or other escaping bypass) on any interpolation, whatever its context — the default HTML "
+                    "escaper at least neutralises quotes and `<`, so a configured value cannot end its string literal or close its element")
     cx = HtmlCtx()
     n = 0
+    n2 = 0
     loop_vars = []
     for e in ev:
         if e[0] == "lit":
@@ -148,14 +151,53 @@ def run(F, R):
             if name in const_display:
                 R.ok("R34.1", "interpolation:" + key, "templates/graphiql_source.jinja", "exempt: closed enum with constant Display")
                 continue
+            raw = [f for f in filters if "safe" in f]
             if ctx.startswith(("js-string", "json-string")):
                 ok = any(any(j in f for j in JS_SAFE_FILTERS) for f in filters)
                 R.check(ok, "R34.1", "interpolation:" + key, "templates/graphiql_source.jinja", "JS-string encoder applied",
                         "`{{ %s }}` sits inside a %s in <script> but is HTML-escaped (filters %s): `&`, `<`, quotes come out as entities so the script sees a "
                         "different string, and a trailing backslash escapes the closing quote and breaks out of the string" % (name, ctx, filters or "none"))
+                # safety is a separate obligation: whatever the encoder, the value may not be emitted raw
+                n2 += 1
+                R.check(not raw, "R34.2", "interpolation-emitted-raw:" + key, "templates/graphiql_source.jinja", "escaped (filters %s)" % (filters or "default html escaper"),
+                        "`{{ %s|safe }}` is written without any escaping inside a %s in <script>: a configured value containing the quote character ends the literal "
+                        "and the rest runs as script; `</script` closes the element" % (name, ctx))
             elif ctx in ("js-code", "json-code", "css", "html-tag", "html-comment"):
                 R.violation("R34.1", "interpolation:" + key, "templates/graphiql_source.jinja", "interpolation in a %s context, where no escaper is adequate" % ctx)
             else:
-                bad = [f for f in filters if "safe" in f]
-                R.check(not bad, "R34.1", "interpolation:" + key, "templates/graphiql_source.jinja", "HTML-escaped in %s" % ctx, "`safe` filter in an HTML context")
+                n2 += 1
+                R.check(not raw, "R34.2", "interpolation-emitted-raw:" + key, "templates/graphiql_source.jinja", "HTML-escaped in %s" % ctx,
+                        "`safe` filter in an HTML %s context: markup in the configured value is injected into the page" % ctx)
     R.floor("R34.1", "interpolations", n, 9)
+    R.floor("R34.2", "escaping obligations", n2, 9)
+
+    R.rule("R34.3", "the page is returned as rendered: GraphiQLSource::finish returns the String produced by the askama render call, passing only through "
+                    "Result::expect / unwrap — no post-processing (replace, manual un-escaping) that could undo the template's escaping")
+    fin = F.one_method(r"graphiql_source::GraphiQLSource<", "finish")
+    cur = ["c", [0]]
+    chain = []
+    verdict = None
+    for _ in range(12):
+        defs = fin.defs_of_local(cur[1][0])
+        nxt = None
+        for bb, st in defs:
+            r = st[1]
+            if r[0] == "callret":
+                c = r[1]
+                name = (c.declared or c.callee or "?")
+                chain.append(name.split("::")[-1])
+                if re.search(r"(result|option)::\{impl#\d+\}::(expect|unwrap)$", c.callee or ""):
+                    nxt = c.args[0]
+                elif re.search(r"Template::render$|::render$", name):
+                    verdict = True
+                else:
+                    verdict = False
+                    bad = c
+            elif r[0] == "use" and r[1][0] in ("c", "m"):
+                nxt = r[1]
+        if verdict is not None or nxt is None:
+            break
+        cur = nxt
+    R.check(verdict is True, "R34.3", "finish:returns-render-output-unmodified", fin.where(), "return value chain: %s" % " <- ".join(chain),
+            "GraphiQLSource::finish post-processes the rendered page (%s): rewriting the escaped output can undo the template's escaping (e.g. turning `&#38;` back "
+            "into `&` decodes character references in the <title> a second time)" % " <- ".join(chain))
